@@ -23,6 +23,7 @@ type Case struct {
 	Forms []val.V
 	Src   string `json:",omitempty"` // hand-written corpus cases: source text instead of Forms
 	Uses  []string
+	Ctx   int // 0: context.Background(), 1: deadline far away, 2: cancellable, no deadline
 }
 
 func (c Case) Text() string {
@@ -33,7 +34,7 @@ func (c Case) Text() string {
 	return strings.Join(ls, "\n")
 }
 
-var candidates = []string{"a", "b", "c", "x", "y", "n", "f", "k", "e", "err", "more", "r", "acc", "go", "v", "zz", "zz-unbound", "tmp"}
+var candidates = []string{"z", "m", "a", "b", "c", "x", "y", "n", "f", "k", "e", "err", "more", "r", "acc", "go", "v", "zz", "zz-unbound", "tmp"}
 
 func genCase(t *rapid.T) Case {
 	p := gen.Program(t, gen.PFlags{Cond: true, Try: true, Sentinels: true, Budget: 60})
@@ -41,7 +42,7 @@ func genCase(t *rapid.T) Case {
 	for u := range p.Uses {
 		us = append(us, u)
 	}
-	return Case{Forms: p.Forms, Uses: us}
+	return Case{Forms: p.Forms, Uses: us, Ctx: rapid.IntRange(0, 2).Draw(t, "ctxkind")}
 }
 
 func has(us []string, s string) bool {
@@ -85,7 +86,13 @@ func check(c Case) pbt.Verdict {
 	e := box.CoreEnv()
 	tr := box.AddTrace(e)
 	box.AddSentinels(e)
-	ctx, cancel := context.WithTimeout(context.Background(), 10*time.Second)
+	ctx, cancel := context.Background(), context.CancelFunc(func() {})
+	switch c.Ctx {
+	case 1:
+		ctx, cancel = context.WithTimeout(context.Background(), 60*time.Second)
+	case 2:
+		ctx, cancel = context.WithCancel(context.Background())
+	}
 	defer cancel()
 	var r box.Result
 	for _, f := range c.Forms {
